@@ -387,6 +387,17 @@ def _mentions_param(e):
     return any(_mentions_param(x) for x in e if isinstance(x, tuple))
 
 
+def _err_value_ok(s, inner):
+    """the expression is a darling Error that carries a span"""
+    if inner[0] == "call" and inner[1] in SELF_SPANNED_FNS:
+        return True, "self-spanned constructor"
+    if inner[0] == "call" and inner[1] == E + "with_span":
+        return True, "with_span(%s)" % s.show(inner[2][1])
+    if inner[0] == "field" and inner[1][0] == "variant" and inner[1][2] == "Err" and inner[1][1][0] == "call" and _is_dispatch_call(inner[1][1][1]):
+        return True, "the error of a dispatcher called with the same node"
+    return False, "Err(%s) built without a span" % s.show(inner)[:120]
+
+
 def exit_ok(ctx, b, s, e, depth):
     if depth > 8:
         return False, "too deep"
@@ -395,14 +406,7 @@ def exit_ok(ctx, b, s, e, depth):
         if e[1].endswith("Result::Ok"):
             return True, "Ok"
         if e[1].endswith("Result::Err"):
-            inner = e[2][0]
-            if inner[0] == "call" and inner[1] in SELF_SPANNED_FNS:
-                return True, "self-spanned constructor"
-            if inner[0] == "call" and inner[1] == E + "with_span":
-                return True, "with_span(%s)" % s.show(inner[2][1])
-            if inner[0] == "field" and inner[1][0] == "variant" and inner[1][2] == "Err" and inner[1][1][0] == "call" and _is_dispatch_call(inner[1][1][1]):
-                return True, "the error of a dispatcher called with the same node"
-            return False, "Err(%s) built without a span" % s.show(inner)[:120]
+            return _err_value_ok(s, e[2][0])
         return False, "unrecognised aggregate %s" % e[1]
     if k == "call":
         c = e[1]
@@ -431,6 +435,22 @@ def exit_ok(ctx, b, s, e, depth):
             return exit_ok(ctx, b, s, args[0], depth + 1)
         if c in ("core::result::Result::<T, E>::map", "core::result::Result::<T, E>::and_then"):
             return exit_ok(ctx, b, s, args[0], depth + 1)
+        if c in ("core::option::Option::<T>::ok_or_else", "core::option::Option::<T>::ok_or"):
+            # Some(v) => Ok(v), None => Err(<closure value>): the error value must be spanned
+            f = args[1]
+            if f[0] == "closure":
+                cb = _closure_body(ctx, b, f[1])
+                if cb is None:
+                    return False, "closure body of ok_or_else not found"
+                cs, _ = ctx.sym(cb)
+                from vlib import sym as S
+                vals = [S.strip_transparent(cs._def_expr(d, 0)) for d in cb.defs().get(0, []) if d[2] in ("assign", "call") and not cb.is_cleanup(d[0])]
+                for v in vals:
+                    ok, why = _err_value_ok(cs, v)
+                    if not ok:
+                        return False, "ok_or_else closure: " + why
+                return bool(vals), "ok_or_else(|| spanned error)"
+            return _err_value_ok(s, f)
         if c == "core::result::Result::<T, E>::or_else":
             return True, "or_else replaces the error by a value (Result<T, Meta>)"
         if _is_dispatch_call(c):
